@@ -161,7 +161,7 @@ impl Property for C14 {
     }
     fn runs(&self, tier: Tier) -> u64 {
         match tier {
-            Tier::Quick => 1_500_000,
+            Tier::Quick => 3_000_000,
             Tier::Thorough => 30_000_000,
         }
     }
